@@ -1,4 +1,5 @@
 import DmrVerif.Lemmas.IntegrityContext
+import DmrVerif.Lemmas.IntegrityHrnpFix
 import DmrVerif.Props.C04
 
 /-!
@@ -39,7 +40,7 @@ theorem slc_trailing (w t : Bits) (hw : 36 ≤ w.length) : slcDec (w ++ t) = slc
 octets and the announced length) -/
 theorem hrnp_trailing (d t : Bytes) (hdapFails : Bool) (h12 : 12 ≤ d.length)
     (hl : be16 ((d.take 10).drop 8) ≤ d.length) : hrnpDec (d ++ t) hdapFails = hrnpDec d hdapFails :=
-  hrnpDec_append d t hdapFails h12 hl
+  hrnpDec_append' d t hdapFails h12 hl
 
 /-- slot type, EMB and the confirmed blocks take exactly their length: anything longer is rejected -/
 theorem exact_length_reject (t : Bits) (ht : t ≠ []) :
@@ -85,19 +86,22 @@ theorem slc_detect_in_context_partial (s e t : Bits) (hs : s.length = 36) (he : 
 /-- **selfcheck in context** (HRNP): what `as_bytes` assembles, followed by anything, parses with
 `checksum_correct` — for every parity of the packet length -/
 theorem hrnp_selfcheck_in_context (hd ver blk opc src dst pn : Nat) (inner t : Bytes)
-    (hop : hrnpOpcodes.contains opc = true) (hlen : 12 + inner.length < 65536) :
+    (hop : hrnpOpcodes.contains opc = true) (hlen : 12 + inner.length < 65536)
+    (hin : opc = hrnpData → HdapFramed inner) :
     hrnpDec (hrnpEnc hd ver blk opc src dst pn inner ++ t) false = .ok true := by
-  have h := hrnp_selfcheck hd ver blk opc src dst pn inner hop hlen
-  rw [hrnpDec_append_of_ok _ t false false true h]
+  have h := hrnp_selfcheck hd ver blk opc src dst pn inner hop hlen hin
+  obtain ⟨h12, hP, _⟩ := hrnpDecOld_true _ false ((hrnpDec_true_iff _ _).mp h).1
+  rw [hrnp_trailing _ t false h12 hP]
   exact h
 
-/-- **one inverted bit, in context** (partial: not in the two packet-length octets): never accepted,
-whatever follows the packet in the buffer -/
+/-- **one inverted bit, in context** (partial: not in the two packet-length octets; full statement for
+DATA packets: `hrnp_single_bit_in_context`, `Props/C04p`): never accepted, whatever follows the packet
+in the buffer -/
 theorem hrnp_single_bit_in_context_partial (d t : Bytes) (hd : hrnpDec d false = .ok true) (j y b : Nat)
     (hj : j < be16 ((d.take 10).drop 8)) (h8 : j ≠ 8) (h9 : j ≠ 9) (hb : b < 8)
     (hy : y = d.getD j 0 + 2 ^ b ∨ d.getD j 0 = y + 2 ^ b) (hdapFails : Bool) :
     hrnpDec (d.set j y ++ t) hdapFails ≠ .ok true := by
-  obtain ⟨h12, hP, _⟩ := hrnpDec_true d false hd
+  obtain ⟨h12, hP, _⟩ := hrnpDecOld_true d false ((hrnpDec_true_iff d false).mp hd).1
   have hlenf : ((d.set j y).take 10).drop 8 = (d.take 10).drop 8 := by
     rw [slice_set, if_neg (by omega)]
   rw [hrnp_trailing _ t hdapFails (by simp; omega) (by rw [hlenf]; simp; omega)]
@@ -148,7 +152,7 @@ with its two checksum octets replaced by another value is not accepted -/
 theorem hrnp_special_check_value (d : Bytes) (hd : hrnpDec d false = .ok true) (a b : Nat)
     (hne : be16 [a, b] ≠ be16 ((d.take 12).drop 10)) (hdapFails : Bool) :
     hrnpDec ((d.set 10 a).set 11 b) hdapFails ≠ .ok true :=
-  hrnp_wrong_check d hd a b hne hdapFails
+  hrnpDec_ne_of_old _ _ (hrnp_wrong_check d ((hrnpDec_true_iff d false).mp hd).1 a b hne hdapFails)
 
 /-! ## non-vacuity / concrete instances (kernel-evaluated) -/
 
